@@ -17,7 +17,8 @@ State mirrored:
 * Statement lists visited by `generic_visit` (bodies of nested `def`/`class`, async loops, unknown statements)
   have no `_Block` entry and no post-processing; a `continue` inside them still marks the enclosing blocks.
 * namer: `new_symbol('continue_', BODY_SCOPE.referenced)` in `_visit_loop_body`, before the body is visited;
-  `visit_Try` walks body, orelse, finalbody, handlers.
+  `visit_Try` walks body, orelse, finalbody, handlers, and wraps the visited `orelse` in `if not <flag>:` when the
+  try body lexically contains a `continue` of the current loop (`_has_own_continue`).
 -/
 namespace Malt.Conv.Continue
 open Malt.Py Malt.Conv.Jump
@@ -25,6 +26,27 @@ open Malt.Py Malt.Conv.Jump
 structure CSt where
   ns : NSt
   used : Bool := false
+
+mutual
+/-- `_has_own_continue`: a `continue` of the enclosing loop occurs in the statements (nested `def`/`class` are
+skipped; of a nested loop only the `else` clause is searched; otherwise `body`, `orelse`, `finalbody` and the
+handlers' bodies). -/
+def hasOwnContinueS : Stmt â†’ Bool
+  | .continue_ _ => true
+  | .functionDef .. => false
+  | .classDef .. => false
+  | .for_ _ _ _ _ orelse _ _ => hasOwnContinueB orelse
+  | .while_ _ _ _ orelse => hasOwnContinueB orelse
+  | .if_ _ _ body orelse => hasOwnContinueB body || hasOwnContinueB orelse
+  | .with_ _ _ body _ => hasOwnContinueB body
+  | .try_ _ body handlers orelse finalbody =>
+      hasOwnContinueB body || hasOwnContinueB orelse || hasOwnContinueB finalbody || hasOwnContinueB handlers
+  | .handler _ _ _ body => hasOwnContinueB body
+  | _ => false
+def hasOwnContinueB : List Stmt â†’ Bool
+  | [] => false
+  | s :: rest => hasOwnContinueS s || hasOwnContinueB rest
+end
 
 mutual
 /-- `self.visit(stmt)`: `(replacement, hit)`. -/
@@ -51,8 +73,11 @@ def visitS (t : AnnoTable) (cur : Option String) : Stmt â†’ CSt â†’ (List Stmt Ã
       let ((body', h), st1) := visitBlk t cur false body st
       (([.with_ i items body' false], h), st1)
   | .try_ i body handlers orelse finalbody, st =>
+      -- the else clause only runs if the try block ran to its end: a continue inside the try block skips it
+      let guardOrelse := !orelse.isEmpty && hasOwnContinueB body
       let ((body', h1), st1) := visitBlk t cur false body st
-      let ((orelse', h2), st2) := visitBlk t cur false orelse st1
+      let ((orelse0, h2), st2) := visitBlk t cur false orelse st1
+      let orelse' := if guardOrelse then [ifNot (cur.getD "None") orelse0] else orelse0
       let ((finalbody', h3), st3) := visitBlk t cur false finalbody st2
       let ((handlers', h4), st4) := visitGen t cur handlers st3
       (([.try_ i body' handlers' orelse' finalbody'], h1 || h2 || h3 || h4), st4)
